@@ -314,11 +314,11 @@ where
 }
 
 macro_rules! registry {
-    ($(($set:ident, $ix:ident, $darg:ty)),* $(,)?) => {
+    ($(($set:ident, $ix:ident, $darg:ty)),* ; extra $($t:ident),* $(,)?) => {
         $(hx_ix!($ix, $set, $darg);)*
         #[derive(InstructionSet)]
         #[ix_set(skip_idl)]
-        pub enum HxIxSet { $($ix($ix)),* }
+        pub enum HxIxSet { $($ix($ix),)* $($t($t)),* }
         pub fn registry() -> Vec<SetEntry> {
             vec![$(entry::<$ix>(stringify!($set))),*]
         }
@@ -403,5 +403,7 @@ registry! {
     (S31, IxS31, ()), (S32, IxS32, ()), (S33, IxS33, ()), (S34, IxS34, ()), (S35, IxS35, ()), (S36, IxS36, ()), (S37, IxS37, ()), (S38, IxS38, ()), (S39, IxS39, ()), (S40, IxS40, ()),
     (V01, IxV01, V01Arg), (V02, IxV02, V02Arg), (V03, IxV03, V03Arg), (V04, IxV04, V04Arg), (V05, IxV05, V05Arg),
     (V06, IxV06, V06Arg), (V07, IxV07, V07Arg), (V08, IxV08, V08Arg), (V09, IxV09, V09Arg), (V10, IxV10, V10Arg),
-    (V11, IxV11, V11Arg), (V12, IxV12, V12Arg),
+    (V11, IxV11, V11Arg), (V12, IxV12, V12Arg);
+    extra T01, T02, T03, T04, T05, T06, T07, T08, T09, T10
 }
+pub use crate::tuples::{T01, T02, T03, T04, T05, T06, T07, T08, T09, T10};
